@@ -50,4 +50,6 @@ def panel (f : Feat) : Panel :=
     prog := prog f,
     ctrl := .uc (Uc.por WIDTH HEIGHT 1 9 false) }
 
+attribute [driver_simp] W sendResolution init updateFrame prog
+
 end EpdVerif.Drivers.Epd7in5_v2
